@@ -36,8 +36,9 @@ static mut N_CB: [u32; 7] = [0x73; 7]; // ready running suspend syscall cancel c
 static mut CB_OLD: Option<St> = None;
 static mut CB_RESULT: Option<Option<usize>> = None;
 
+// (not a zero-sized type: a boxed ZST listener is a dangling pointer, and CBMC's pointer checks reject the calls through it)
 #[derive(Debug)]
-struct Rec;
+struct Rec(u8);
 impl Listener<u8, Option<usize>> for Rec {
     fn on_state_changed(&self, _: &CoroutineLocal, old: St, new: St) {
         unsafe {
@@ -122,7 +123,7 @@ fn any_state() -> St {
         3 => CoroutineState::Syscall(kani::any(), any_syscall_name(), any_syscall_state()),
         4 => CoroutineState::Cancelled,
         5 => CoroutineState::Complete(any_opt()),
-        _ => CoroutineState::Error("boom"),
+        _ => CoroutineState::Error("e"),
     }
 }
 
@@ -167,19 +168,18 @@ fn reset_rec() {
 }
 
 fn total_cb() -> u32 {
-    let mut t = 0;
-    let mut i = 0;
-    while i < 7 {
-        t += unsafe { N_CB[i] };
-        i += 1;
-    }
-    t
+    // (written without a loop: these harnesses run at unwind 3, see the macro)
+    unsafe { N_CB[0] + N_CB[1] + N_CB[2] + N_CB[3] + N_CB[4] + N_CB[5] + N_CB[6] }
 }
 
 fn new_co() -> Co {
+    {
+        let probe: std::collections::VecDeque<u64> = std::collections::VecDeque::new();
+        kani::assert(probe.capacity() == 0 && probe.len() == 0, "canary: VecDeque::new() is the empty constant (no constant/static aliasing)");
+    }
     let mut co: Co = Coroutine::new(Some(String::from("c07")), |_: &Suspender<(), u8>, ()| None, None, None)
         .expect("create coroutine");
-    co.add_listener(Rec);
+    co.add_listener(Rec(0x7c));
     co
 }
 
@@ -212,8 +212,12 @@ fn check_step(co: &Co, old: St, res: &std::io::Result<()>, now: u64, silent_ok: 
 
 macro_rules! c07_step {
     ($name:ident, |$co:ident, $old:ident| $call:expr, |$o2:ident| $silent:expr) => {
+        // unwind 3: one listener => the broadcast loop makes 1 iteration + the exit test. The bound also limits the recursion
+        // CBMC sees through `dyn Listener` (the coroutine's own broadcasting impl is a possible target by signature); at
+        // unwind 5 that recursion costs 10 M program steps, at 3 under 2 M. `-Z restrict-vtable` is NOT used here: with a
+        // listener registered it produced NULL function pointers for the recording listener (Kani 0.68).
         #[kani::proof]
-        #[kani::unwind(4)]
+        #[kani::unwind(3)]
         #[kani::stub(crate::common::now, vnow)]
         #[kani::stub(alloc::fmt::format, fmt_stub)]
 #[kani::stub(crate::common::page_size, page_size_stub)]
